@@ -51,22 +51,19 @@ Definition file_res_map {A B} (f : A -> B) (r : file_res A) : file_res B :=
   | FRFuel => FRFuel
   end.
 
-(* JSON string layer, as far as C19 needs it: after a backslash inside a string
-   encoding/json accepts only a double quote, backslash, slash or one of b f n r t u;
-   anything else is rejected (invalid character in string escape code).  inStr says
-   whether x starts inside a string literal. *)
-Fixpoint valid_escapes (x : bytes) (inStr : bool) : bool :=
-  match x with
-  | [] => true
-  | c :: x' =>
-      if inStr then
-        if Ascii.eqb c bsl then
-          match x' with
-          | [] => false
-          | e :: x'' => mem_ascii e (s """\/bfnrtu") && valid_escapes x'' true
-          end
-        else if Ascii.eqb c """"%char then valid_escapes x' false
-        else valid_escapes x' true
-      else if Ascii.eqb c """"%char then valid_escapes x' true
-      else valid_escapes x' false
+(* JSON string literals as the getJson scanner sees them: a body is a sequence of units, a
+   unit is one byte other than the double quote and the backslash, or a backslash followed
+   by any byte (an escape pair).  Every body encoding/json writes has this shape. *)
+Inductive junit := UPlain (c : ascii) | UEsc (c : ascii).
+Definition unit_ok (u : junit) : bool :=
+  match u with
+  | UPlain c => negb (Ascii.eqb c """"%char) && negb (Ascii.eqb c bsl)
+  | UEsc _ => true
   end.
+Definition render_unit (u : junit) : bytes :=
+  match u with UPlain c => [c] | UEsc c => [bsl; c] end.
+Definition render_body (us : list junit) : bytes := flat_map render_unit us.
+
+(* the compact document {"<key>":"<value>"} *)
+Definition field_doc (k v : list junit) : bytes :=
+  "{"%char :: """"%char :: (render_body k ++ """"%char :: ":"%char :: """"%char :: (render_body v ++ """"%char :: "}"%char :: [])).
